@@ -116,7 +116,10 @@ def run_impl(cfg, events, ops, trace=False, payload_type=bytes, keymode="script"
     import websocket
     from websocket import _core
     cfg = cfg or {}
-    ws = websocket.WebSocket(fire_cont_frame=bool(cfg.get("fire")), skip_utf8_validation=bool(cfg.get("skip")))
+    # "mt": False = the single-threaded configuration (enable_multithread=False: dummy locks); implementation-side only —
+    # what a call returns, raises and writes must not depend on it
+    ws = websocket.WebSocket(fire_cont_frame=bool(cfg.get("fire")), skip_utf8_validation=bool(cfg.get("skip")),
+                             enable_multithread=bool(cfg.get("mt", True)))
     sock = simnet.SimSocket(events, tail=cfg.get("tail", "eof"), accepts=cfg.get("acc"),
                             send_fail_after=cfg.get("fail"), eagain=cfg.get("eagain"))
     if cfg.get("to") is not None:
